@@ -9,9 +9,14 @@
 //!   VERIF_CASE  optional: replay only the case with this id
 #![allow(dead_code, unused_imports, clippy::all)]
 
+pub(crate) mod chain;
+pub(crate) mod client;
+pub(crate) mod ctx;
 pub(crate) mod out;
+pub(crate) mod prover;
 pub(crate) mod prng;
 
+mod c01;
 mod c14;
 mod c15;
 
@@ -37,6 +42,7 @@ fn verif_entry() {
     // keep panic messages of caught panics out of the way
     std::panic::set_hook(Box::new(|_| {}));
     match op.as_str() {
+        "c01" => c01::run(seed, n, &mut out),
         "c14" => c14::run(seed, n, &mut out),
         "c15" => c15::run(seed, n, &mut out),
         other => panic!("unknown VERIF_OP {}", other),
